@@ -165,6 +165,7 @@ def judge(case):
     if case.get("decoy"):
         _decoys.genome(case["decoy"], Genome, Gene, GeneType, [g_[0] for g_ in case["genes"]])
         out.label("decoy")
+        _decoys.note(out)
     m0 = _Model()
     for n, v, t, lv in case["genes"]:
         m0.values[n], m0.types[n], m0.defaults[n], m0.levels[n] = json.loads(_c(v)), t, lv, lv
